@@ -406,6 +406,35 @@ theorem C08_rect_repaired_coherent (r : RectObj) (h : r.Coherent) (p : CR.Geom.P
   all_goals intros; intro vs hvs; simp [RectObj.setLengthR, RectObj.setWidthR, RectObj.setCenterR, RectObj.setOrientationR,
     RectObj.new] at hvs
 
+/-- In-place edit of the centre array followed by re-assignment of the same object (`rect.center += d`; `c = rect.center;
+    c[i] = x; rect.center = c`): whatever the object had cached before - NO coherence hypothesis, the in-place write has just
+    broken it - the repaired setter leaves an object that answers like a rectangle constructed at the new centre. -/
+theorem C08_rect_inplace_reassign (r : RectObj) (ctr p : CR.Geom.Pt) :
+    (((r.writeCenter ctr).reassignCenterR).containsPoint p).1 = CR.Geom.rectContains r.l r.w ctr r.c r.s p ∧
+    ((r.writeCenter ctr).reassignCenterR).Coherent := by
+  refine ⟨?_, ?_⟩
+  · simp [RectObj.writeCenter, RectObj.reassignCenterR, RectObj.setCenterR, RectObj.containsPoint, CR.Geom.rectContains]
+  · intro vs hvs
+    simp [RectObj.writeCenter, RectObj.reassignCenterR, RectObj.setCenterR] at hvs
+
+/-- ... and the in-place write alone (no setter call) is what breaks coherence: the witness that the re-assignment is needed, and
+    WITNESS for a setter that skips equal values (seeded/C08_13; corpus/C08/inplace_rectangle_center.json): `R = Rectangle(4, 2)`,
+    one `contains_point`, `R.center += (10, 0)`: with the skipping setter the object still answers for the rectangle at the
+    origin; with the repaired setter it answers for the rectangle at (10, 0). -/
+theorem C08_witness_inplace_skip_equal :
+    let r1 := ((RectObj.new 4 2 ⟨0, 0⟩ 1 0).containsPoint ⟨0, 0⟩).2
+    let stale := (r1.writeCenter ⟨10, 0⟩).setCenterSkipEqual ⟨10, 0⟩
+    let good := (r1.writeCenter ⟨10, 0⟩).reassignCenterR
+    (stale.containsPoint ⟨10, 0⟩).1 = false ∧ (stale.containsPoint ⟨0, 0⟩).1 = true ∧ ¬ (r1.writeCenter ⟨10, 0⟩).Coherent ∧
+    (good.containsPoint ⟨10, 0⟩).1 = true ∧ (good.containsPoint ⟨0, 0⟩).1 = false := by
+  refine ⟨by decide +kernel, by decide +kernel, ?_, by decide +kernel, by decide +kernel⟩
+  intro h
+  have := h _ rfl
+  revert this
+  decide +kernel
+
+/-- (`Polygon.vertices` edited in place and assigned back: `C08_poly_repaired` below holds for ANY previous object `q`, so the
+    history before the assignment - in-place writes included - cannot matter.) -/
 theorem C08_poly_repaired (q : PolyObj) (vs : List CR.Geom.Pt) (p : CR.Geom.Pt) :
     (q.setVerticesR vs).containsPoint p = CR.Geom.polyContains vs p := rfl
 
